@@ -44,7 +44,8 @@ func mountedPathToCaller(p, name, mountSubPath string) string {
 		return strings.TrimPrefix(p, base+"/")
 	case name == ".":
 		// sub-directory view of its own root: mountSubPath is base
-		if p == mountSubPath {
+		if p == mountSubPath || strings.HasPrefix(mountSubPath, p+"/") {
+			// the base directory or one of its ancestors, see above
 			return "."
 		}
 		return strings.TrimPrefix(p, mountSubPath+"/")
